@@ -51,6 +51,8 @@ pub struct RefDoc {
     pub unterminated: Option<Unterminated>,
     /// some construct is outside what the documentation defines; only no-crash is required
     pub unspecified: Option<&'static str>,
+    /// text behind the language of a scrut fence that is not one `{...}` group: the document has to be rejected
+    pub malformed_config: bool,
     /// a fence without language: the implementation is expected to reject the document
     pub has_bare_fence: bool,
     pub classes: Vec<LineClass>,
@@ -183,6 +185,7 @@ pub fn tokenize(text: &str) -> RefDoc {
     let mut in_paragraph = false;
     let mut title_ambiguous = false;
     let mut after_block = false; // directly after a code block, no blank line yet
+    let mut after_heading = false; // the previous line was a heading
 
     while i < lines.len() {
         let line = &lines[i];
@@ -249,7 +252,7 @@ pub fn tokenize(text: &str) -> RefDoc {
                 let cfg = config.as_ref().map(|c| c.trim_end()).and_then(|c| c.strip_prefix('{')).and_then(|c| c.strip_suffix('}')).map(|c| c.to_string()).filter(|c| !c.trim().is_empty());
                 let empty_group = config.as_ref().map(|c| c.trim_end()).and_then(|c| c.strip_prefix('{')).and_then(|c| c.strip_suffix('}')).map(|c| c.trim().is_empty()).unwrap_or(false);
                 if config.is_some() && cfg.is_none() && !empty_group {
-                    doc.unspecified = Some("config that is not a single {...} group");
+                    doc.malformed_config = true;
                 }
                 doc.blocks.push((lang.clone(), cfg.clone(), matches!(parsed, Body::Test { .. })));
                 if close.is_none() {
@@ -310,15 +313,19 @@ pub fn tokenize(text: &str) -> RefDoc {
         }
         match title_of(line) {
             Some(t) => {
-                if !in_paragraph {
+                // a heading is a title of its own: it neither continues the lines before it nor is continued by the next line
+                let heading = line.trim().starts_with('#');
+                if !in_paragraph || heading || after_heading {
                     paragraph.clear();
                     title_ambiguous = after_block; // paragraph glued to a code block: not compared
                 }
                 paragraph.push(t);
                 in_paragraph = true;
+                after_heading = heading;
             }
             None => {
                 in_paragraph = false;
+                after_heading = false;
                 if !line.trim().is_empty() {
                     // a non-title prose line (e.g. starting with punctuation) between title and test:
                     // "nearest preceding heading or paragraph" is then not clearly defined
